@@ -846,7 +846,13 @@ func ctxWiring(c *Ctx, rule string) {
 						clk = s.Val
 					}
 				}
-				c.check(clk != nil && ap(clk) == "SP.Clock", rule, site, "ctx.Clock = sp.Clock", pos, "clock injected before the check", "ctx.Clock is "+apOrNone(clk)+" when the signature is checked (unset => wall clock decides certificate validity)")
+				clockOK := clk != nil && ap(clk) == "SP.Clock"
+				if clk == nil {
+					// `if sp.Clock != nil { ctx.Clock = sp.Clock }`: on the other path the fresh context's nil Clock IS sp.Clock
+					a := t.atoms()
+					clockOK = a["SP.Clock == nil"] && ap(recv) == want
+				}
+				c.check(clockOK, rule, site, "ctx.Clock = sp.Clock", pos, "clock injected before the check", "ctx.Clock is "+apOrNone(clk)+" when the signature is checked (unset => wall clock decides certificate validity)")
 			}
 		}
 	}
